@@ -67,6 +67,7 @@ fn ekind(max_many: u16, many_w: u32, big: u32) -> impl Strategy<Value = EKind> {
         5 => data_copy(big).prop_map(EKind::File),
         3 => (any::<u16>(), any::<bool>()).prop_map(|(target, rel)| EKind::Link { target, rel }),
         1 => Just(EKind::Fifo),
+        1 => (0u8..3).prop_map(EKind::Special),
         many_w => (prop_oneof![12 => 0u16..=30, 4 => 15u16..=60, 2 => 0u16..=max_many.min(300), 1 => max_many.min(300)..=max_many], any::<u8>(), prop_oneof![Just(0u8), Just(1u8), any::<u8>()], any::<bool>()).prop_map(|(count, len_a, len_step, mixed)| EKind::Many { count, len_a, len_step, mixed }),
     ]
 }
